@@ -233,7 +233,9 @@ class GpRegressor:
                 """
             )
 
-        self.hyperpars = hyperpars
+        # keep a copy: the fitted state must not change if the caller
+        # goes on to re-use (overwrite) the array which was passed in
+        self.hyperpars = array(hyperpars, dtype=float)
         self.mean_hyperpars = self.hyperpars[self.mean_slice]
         self.cov_hyperpars = self.hyperpars[self.cov_slice]
         self.K_xx = self.cov.build_covariance(self.cov_hyperpars) + self.sig
